@@ -86,9 +86,17 @@ def split_targs(s):
     return name, args
 
 
+def lconst(s):
+    """strip a leading (top-level) const only"""
+    s = s.strip()
+    while s.startswith("const "):
+        s = s[6:].strip()
+    return s
+
+
 def sanitize(s):
     s = strip_ns(s)
-    s = s.replace("unsigned long", "ul").replace("unsigned char", "u8").replace("const ", "")
+    s = s.replace("unsigned long", "ul").replace("unsigned char", "u8").replace("const ", "c")
     s = re.sub(r"[^A-Za-z0-9_]+", "_", s).strip("_")
     return s
 
@@ -170,6 +178,12 @@ class Emitter:
             if s.endswith(" volatile"):
                 s = s[:-9].strip(); continue
             break
+        m = re.match(r"^(.*) \(&&?\)\[(\d+)\]$", s)
+        if m:
+            # reference to array: passed as pointer to the first element (decay); uses need no deref
+            inner = self._ctype(m.group(1))
+            self.report["array-reference parameters passed as element pointers"] += 1
+            return CT(inner.base, inner.ptr + 1, inner.dims, False, inner.const, cxx)
         if s.endswith("&&"):
             inner = self._ctype(s[:-2])
             return self._ref_of(inner, cxx)
@@ -418,7 +432,11 @@ class Emitter:
         else:
             rts = self._return_type_str(decl)
             rt = self.ctype(rts)
-            if rt.is_ref:
+            if rt.is_ref and mode == "value":
+                # const accessor of a value class returning a reference to a member: return the member by value
+                rt = rt.pointee()
+                self.report["reference-returning accessors of value classes returning by value"] += 1
+            elif rt.is_ref:
                 ctx["ret_ref"] = True
         ctx["rt"] = rt
         proto = "%s(%s)" % (rt.decl(cname), ", ".join(params) if params else "void")
@@ -439,6 +457,9 @@ class Emitter:
             lines.append("  return xc_self;")
         contract = self.contracts.get(cname, {})
         pre = contract.get("pre", "")
+        missing = set(contract.get("ghost", {}).keys()) - ctx.get("ghost_fired", set())
+        if missing:
+            raise ExtractionError("ghost splice point(s) %s not found in %s" % (sorted(map(str, missing)), cname))
         fo.nloops = ctx["loop"]
         want = set(contract.get("loops", {}).keys())
         if want and max(want) > fo.nloops:
@@ -446,6 +467,11 @@ class Emitter:
                 max(want), cname, fo.nloops))
         fo.body = proto + "\n" + pre + ("\n" if pre and not pre.endswith("\n") else "") + "{\n" + "\n".join(
             l for l in lines if l is not None and l != "") + "\n}\n"
+        prag = contract.get("pragmas")
+        if prag:
+            fo.body = "#pragma CPROVER check push\n" + "".join("#pragma CPROVER check %s\n" % p for p in prag) + \
+                fo.body + "#pragma CPROVER check pop\n"
+            self.report["check pragmas applied (see assumptions)"] += len(prag)
         return fo
 
     def _return_type_str(self, decl):
@@ -544,12 +570,20 @@ class Emitter:
             return self._array_init_stmts(lhs, init, ft)
         return ["  %s = %s;" % (lhs, self.expr(init))]
 
+    @staticmethod
+    def unrolled(pad, start, n, fmt):
+        """generated (not extracted) fixed-count initialisation, fully unrolled so that no loop is added"""
+        n = int(n)
+        if n - start > 256:
+            raise ExtractionError("generated initialisation of %d elements is too large to unroll" % n)
+        return "\n".join(pad + fmt % {"i": i} for i in range(start, n))
+
     def _array_init_stmts(self, lhs, init, ft):
         """element-wise initialisation of an array field from {a, b, ...} with value-initialised rest"""
         k = init.get("kind")
         n = ft.dims[0]
         if k == "ImplicitValueInitExpr":
-            return ["  for (size_t xc_i = 0; xc_i < %s; xc_i++) %s[xc_i] = 0;" % (n, lhs)]
+            return [self.unrolled("  ", 0, n, lhs + "[%(i)d] = 0;")]
         if k == "InitListExpr":
             listed = [self.expr(c) for c in init.get("inner", [])]
             filler = "0"
@@ -557,7 +591,7 @@ class Emitter:
                 if c.get("kind") and c["kind"] != "ImplicitValueInitExpr":
                     filler = self.expr(c)
             out = ["  %s[%d] = %s;" % (lhs, i, v) for i, v in enumerate(listed)]
-            out.append("  for (size_t xc_i = %d; xc_i < %s; xc_i++) %s[xc_i] = %s;" % (len(listed), n, lhs, filler))
+            out.append(self.unrolled("  ", len(listed), n, lhs + "[%(i)d] = " + filler.replace("%", "%%") + ";"))
             return out
         raise ExtractionError("unsupported array initialiser: %s" % k)
 
@@ -675,7 +709,9 @@ class Emitter:
         g = self.contracts.get(self.cur["cname"], {}).get("ghost", {}).get((ordinal, where))
         if not g:
             return ""
-        return "  " * ind + g
+        self.cur.setdefault("ghost_fired", set()).add((ordinal, where))
+        self.report["ghost statements spliced (write ghost variables only)"] += 1
+        return "  " * ind + "XC_GHOST(" + g + ")"
 
     def is_dropped_call(self, n):
         return self.dropped_name(n) is not None
@@ -701,6 +737,14 @@ class Emitter:
         return None
 
     def vardecl(self, v, ind):
+        r = self._vardecl(v, ind)
+        if v.get("kind") == "VarDecl":
+            g = self.ghost("after_decl", v.get("name"), ind)
+            if g:
+                r = (r + "\n" if r else "") + g
+        return r
+
+    def _vardecl(self, v, ind):
         pad = "  " * ind
         k = v.get("kind")
         if k in ("StaticAssertDecl", "TypedefDecl", "TypeAliasDecl", "UsingDecl", "EmptyDecl"):
@@ -736,17 +780,34 @@ class Emitter:
             if s.get("kind") == "StringLiteral":
                 return pad + st + "const " * 0 + vt.decl(name) + " = %s;" % s["value"]
             if s.get("kind") == "InitListExpr":
-                vals = [self.expr(c) for c in s.get("inner", [])]
-                if s.get("array_filler"):
-                    vals = [self.expr(c) for c in s["array_filler"] if c.get("kind") and c["kind"] != "ImplicitValueInitExpr"] or ["0"]
-                return pad + st + vt.decl(name) + " = {%s};" % ", ".join(vals or ["0"])
+                # std::array<T,N> x{...}: the aggregate wraps one inner array initialiser
+                while len(s.get("inner", [])) == 1 and s["inner"][0].get("kind") == "InitListExpr" and not s.get("array_filler"):
+                    s = s["inner"][0]
+                listed = [self.expr(c) for c in s.get("inner", [])]
+                filler = None
+                for c in s.get("array_filler", []) or []:
+                    if c.get("kind") and c["kind"] != "ImplicitValueInitExpr":
+                        filler = self.expr(c)
+                    elif c.get("kind") == "ImplicitValueInitExpr":
+                        filler = "0" if vt.base in SCALARS.values() or vt.ptr else "(%s){0}" % vt.base
+                scalar = (vt.base in SCALARS.values() or vt.ptr) and len(vt.dims) == 1
+                if scalar and (filler is None or re.sub(r"[()\s]|unsigned|signed|char|int|long|short", "", filler) == "0"):
+                    cq = "const " if (v.get("constexpr") or vt.const) else ""
+                    return pad + st + cq + vt.decl(name) + " = {%s};" % (", ".join(listed) if listed else "0")
+                out = [pad + st + vt.decl(name) + ";"]
+                for i, v in enumerate(listed):
+                    out.append(pad + "%s[%d] = %s;" % (name, i, v))
+                if len(listed) < int(vt.dims[0]):
+                    if filler is None:
+                        filler = "0" if vt.base in SCALARS.values() or vt.ptr else "(%s){0}" % vt.base
+                    out.append(self.unrolled(pad, len(listed), vt.dims[0], name + "[%(i)d] = " + filler.replace("%", "%%") + ";"))
+                return "\n".join(out)
             if s.get("kind") == "CXXConstructExpr":
                 # array of class objects default-constructed
                 elem = CT(vt.base, vt.ptr)
                 one = self.construct(s.get("inner", [{}])[0] if s.get("inner") else s, [], s) if False else None
                 ctor = self._default_ctor_expr(s)
-                return pad + st + vt.decl(name) + ";\n" + pad + "for (size_t xc_i = 0; xc_i < %s; xc_i++) %s[xc_i] = %s;" % (
-                    vt.dims[0], name, ctor)
+                return pad + st + vt.decl(name) + ";\n" + self.unrolled(pad, 0, vt.dims[0], name + "[%(i)d] = " + ctor.replace("%", "%%") + ";")
             raise ExtractionError("unsupported array initialiser for %s: %s" % (name, s.get("kind")))
         special = self.special_vardecl(v, vt, i0, ind)
         if special is not None:
@@ -792,7 +853,7 @@ class Emitter:
 
     def seq_access(self, t, seq):
         """(begin pointer expr, length expr) of a range-for range; extended through cfg."""
-        name = strip_ns(t.get("desugaredQualType") or t["qualType"]).replace("const ", "").rstrip("& ").strip()
+        name = lconst(strip_ns(t.get("desugaredQualType") or t["qualType"])).rstrip("& ").strip()
         base, targs = split_targs(name)
         h = getattr(self.cfg, "seq_handlers", {}).get(base)
         if h:
@@ -1091,6 +1152,8 @@ class Emitter:
         raise ExtractionError("unsupported implicit cast %s" % ck)
 
     def derived_to_base(self, n, inner):
+        if self._strip(inner).get("kind") == "CXXNewExpr":
+            return self.expr(inner)     # pointer handed to an owning handle shim
         raise ExtractionError("derived-to-base conversion not supported")
 
     def explicit_cast(self, n):
@@ -1238,7 +1301,7 @@ class Emitter:
                 out.append(self.expr(a))
             call = "%s(%s)" % (cname, ", ".join(out))
             rt = self.ctype(self._return_type_str(dd)) if dd.get("kind") not in ("CXXConstructorDecl", "CXXDestructorDecl") else None
-            if rt is not None and rt.is_ref:
+            if rt is not None and rt.is_ref and mode != "value":
                 return "(*%s)" % call
             return call
         # external
@@ -1335,7 +1398,7 @@ class Emitter:
         md = self.ix.by_id.get(mid)
         if md is None:
             # method of a std:: class
-            rt = strip_ns(base["type"].get("desugaredQualType") or base["type"]["qualType"]).replace("const ", "").rstrip("*& ").strip()
+            rt = lconst(strip_ns(base["type"].get("desugaredQualType") or base["type"]["qualType"])).rstrip("*& ").strip()
             bname, _ = split_targs(rt)
             key = "%s::%s" % (bname, c["name"])
             h = self.cfg.ext_methods.get(key) or self.cfg.ext_methods.get("%s/%d" % (key, len(args)))
@@ -1365,7 +1428,7 @@ class Emitter:
         d = self.ix.by_id.get(r["id"])
         if d is None:
             # operator of a std:: class
-            rt = strip_ns(args[0]["type"].get("desugaredQualType") or args[0]["type"]["qualType"]).replace("const ", "").rstrip("& ").strip()
+            rt = lconst(strip_ns(args[0]["type"].get("desugaredQualType") or args[0]["type"]["qualType"])).rstrip("& ").strip()
             bname, _ = split_targs(rt)
             key = "%s::%s" % (bname, r["name"])
             h = self.cfg.ext_methods.get(key)
@@ -1403,7 +1466,7 @@ class Emitter:
 
     def construct_expr(self, n):
         t = n["type"]
-        tname = strip_ns(t.get("desugaredQualType") or t["qualType"]).replace("const ", "").strip()
+        tname = lconst(strip_ns(t.get("desugaredQualType") or t["qualType"])).strip()
         base, targs = split_targs(tname)
         args = [a for a in n.get("inner", [])]
         ctor_sig = n.get("ctorType", {}).get("qualType", "")
@@ -1463,7 +1526,7 @@ class Emitter:
         p = m.group(1).strip()
         if "," in split_targs(p)[0] and "<" not in p:
             return False
-        p2 = p.replace("const ", "").rstrip("&").strip()
+        p2 = lconst(p).rstrip("&").strip()
         q = self.ix.qual.get(rec["id"], rec.get("name", ""))
         p2n = strip_ns(p2).replace(" ", "")
         qn = q.replace(" ", "")
@@ -1512,10 +1575,12 @@ class Emitter:
         return "\"\""
 
     # ------------------------------------------------------------------ output
-    def text(self, order=None):
+    def text(self, order=None, mid=""):
         out = []
         for s in self.structs.values():
             out.append(s)
+        if mid:
+            out.append(mid)
         for c in self.consts.values():
             if c:
                 out.append(c)
